@@ -102,8 +102,8 @@ func icDesc() *grpc.ServiceDesc {
 		}}
 	}
 	return &grpc.ServiceDesc{ServiceName: icSvc, HandlerType: (*icIface)(nil),
-		Methods:  []grpc.MethodDesc{mk("U1"), mk("U2")},
-		Streams:  []grpc.StreamDesc{mks("S1", true, false), mks("S2", true, true)},
+		Methods:  []grpc.MethodDesc{mk("U1"), mk("U2"), mk("U3")},
+		Streams:  []grpc.StreamDesc{mks("S1", true, false), mks("S2", false, true), mks("S3", true, true)},
 		Metadata: "ic.proto"}
 }
 
@@ -245,10 +245,13 @@ func serverCase(c, out map[string]interface{}) {
 	kind := c["kind"].(string)
 	other := c["other"].(bool)
 	layers := strs(c["layers"])
-	method, sname := "/"+icSvc+"/U2", "S2"
+	target := int(c["target"].(float64))
+	sname := fmt.Sprintf("S%d", target)
+	method := fmt.Sprintf("/%s/U%d", icSvc, target)
 	if kind == "stream" {
 		method = "/" + icSvc + "/" + sname
 	}
+	wantCS, wantSS := target != 2, target != 1
 	mkLayer := func(i int) (grpc.UnaryServerInterceptor, grpc.StreamServerInterceptor) {
 		name := fmt.Sprintf("L%d", i+1)
 		var u grpc.UnaryServerInterceptor
@@ -259,7 +262,7 @@ func serverCase(c, out map[string]interface{}) {
 				s = srvStreamInt(name+"o", "pass", log, "", false, false, impl)
 			}
 		} else {
-			s = srvStreamInt(name, layers[i], log, method, true, true, impl)
+			s = srvStreamInt(name, layers[i], log, method, wantCS, wantSS, impl)
 			if other {
 				u = srvUnaryInt(name+"o", "pass", log, "", impl)
 			}
@@ -273,7 +276,7 @@ func serverCase(c, out map[string]interface{}) {
 	if kind == "unary" {
 		tu = srvUnaryInt("T", t, log, method, impl)
 	} else {
-		ts = srvStreamInt("T", t, log, method, true, true, impl)
+		ts = srvStreamInt("T", t, log, method, wantCS, wantSS, impl)
 	}
 	// the carrier
 	var base grpc.ServiceRegistrar
@@ -322,7 +325,7 @@ func serverCase(c, out map[string]interface{}) {
 		d, h := hm.QueryService(icSvc)
 		if kind == "unary" {
 			dec := func(m interface{}) error { return nil }
-			resp, err := d.Methods[1].Handler(h, context.Background(), dec, tu)
+			resp, err := d.Methods[target-1].Handler(h, context.Background(), dec, tu)
 			if err != nil {
 				result = tokens(status.Convert(err).Message())
 			} else {
@@ -330,7 +333,7 @@ func serverCase(c, out map[string]interface{}) {
 			}
 		} else {
 			fs := &fakeServerStream{ctx: context.Background()}
-			err := d.Streams[1].Handler(h, fs)
+			err := d.Streams[target-1].Handler(h, fs)
 			result = append([]string{}, fs.sent...)
 			if err != nil {
 				result = append(result, tokens(status.Convert(err).Message())...)
@@ -345,6 +348,9 @@ func serverCase(c, out map[string]interface{}) {
 			result = tokens(string(resp.Payload))
 		}
 	} else {
+		// (the client side always treats the method as bidi so that the marker
+		// messages of the instrumented interceptors can be collected; the
+		// flags the interceptors are told come from the registered description)
 		st, err := ch.NewStream(context.Background(), &grpc.StreamDesc{StreamName: sname, ClientStreams: true, ServerStreams: true}, method)
 		result = collectStream(st, err)
 	}
